@@ -24,7 +24,7 @@ for d in sorted(glob.glob(os.path.join(ROOT, "seeded", "C*"))):
     m = json.load(open(os.path.join(d, "meta.json")))
     rc, summ = ev.get(name, ("?", ""))
     verdict = {"1": "VIOLATION reported", "0": "**missed**", "3": "harness error"}.get(rc, "not run")
-    first = "missed at first" if ("MISSED at first" in m["checks_run"] or "not reported at first" in m["checks_run"]) \
+    first = "missed at first" if ("MISSED at first" in m["checks_run"] or "not reported" in m["checks_run"]) \
         else "caught as built"
     rows.append((name, m["property"], ", ".join(os.path.basename(f) for f in m["files_changed"]),
                  m["needs_to_manifest"], first, verdict, m["checks_run"]))
@@ -33,7 +33,7 @@ out = ["# Seeded breaking changes", "",
        "patch, 0 without; written by the sub-agent, independent of /verif) and `meta.json`.  Every change was",
        "produced by a fresh sub-agent that saw only the property record and a scratch worktree, keeps the 127",
        "tests green, and was confirmed here with `tools/confirmseed.sh` (demo with patch = 1, tests pass, demo",
-       "without patch = 0).  `<id>b` / `<id>c` are the second / third change for the same property (the agent was",
+       "without patch = 0).  `<id>b` / `<id>c` / `<id>d` are the second / third / fourth change for the same property (the agent was",
        "told which mechanism had been used before).  The last column is the official run: patch applied to /repo,",
        "quick check of the property, patch undone (`tools/evalseeds.sh`, log in `EVAL.txt`).", "",
        "| change | files | needs to manifest | first evaluation | current quick check |", "|---|---|---|---|---|"]
